@@ -280,7 +280,8 @@ def check_incremental(ctx):
         if b1 else (None, None)
     n3, _ = find("if self.num_features is not None:\n    self.arm_to_model[arm].init(num_features=self.num_features)",
                  up.node)
-    ok = n2 is not None or n3 is not None
+    n4, _ = find("if self.num_features is not None:\n    self.arm_to_model[arm].init(self.num_features)", up.node)
+    ok = n2 is not None or n3 is not None or n4 is not None
     ctx.check(ok, "R2.3", "an arm added after a fit gets an initialised model", up.node, up,
               construct="def _Linear._uptake_new_arm")
     # documented reads of each predict
